@@ -197,6 +197,35 @@ let sorted_n l = List.sort Z.compare (List.map z_of_n l)
 let nlist_string l = String.concat "," (List.map Z.to_string l)
 let visits_string (v : (key * val0) list) = String.concat "" (List.map (fun (k, v) -> kvs k v ^ ",") v)
 
+(* ---------- B-level step-wise simulation: the pointer graph after a step must be what the extracted
+   Layer B operations produce from the graph before it ---------- *)
+let dummy_pay = PLive ({ kid = N0; ktok = N0; kheap = N0 }, { vtok = N0; vtag = N0; vheap = N0 })
+let gstate_of (o : obs) : gstate option =
+  match o.graph with
+  | None -> None
+  | Some g ->
+    let sizes = List.rev_map (fun (en : entry) -> en.es) o.st.ents in          (* MRU first, like the nodes *)
+    if List.length sizes <> List.length g.g_nodes then None else
+    let tbl = Hashtbl.create 64 in
+    Hashtbl.replace tbl (s_of_n g.g_seal) { nprev = g.g_seal_prev; nnext = g.g_seal_next; nsize = N0; npay = PSeal };
+    List.iter2 (fun (nd : onode) sz -> Hashtbl.replace tbl (s_of_n nd.oaddr) { nprev = nd.oprev; nnext = nd.onext; nsize = sz; npay = dummy_pay }) g.g_nodes sizes;
+    Some { gh = (fun a -> Hashtbl.find_opt tbl (s_of_n a)); gseal = g.g_seal; glist = List.map (fun (nd : onode) -> nd.oaddr) g.g_nodes }
+let links_string (l : (((addr * addr option) * addr option) * n option) list) =
+  String.concat "," (List.map (fun (((a, p), nx), sz) ->
+      let so = function Some x -> s_of_n x | None -> "?" in
+      Printf.sprintf "%s:%s:%s:%s" (s_of_n a) (so p) (so nx) (so sz)) l)
+let observed_links (o : obs) : string =
+  match o.graph with
+  | None -> ""
+  | Some g ->
+    let sizes = List.rev_map (fun (en : entry) -> en.es) o.st.ents in
+    let sizes = if List.length sizes = List.length g.g_nodes then sizes else List.map (fun _ -> N0) g.g_nodes in
+    links_string ((((g.g_seal, Some g.g_seal_prev), Some g.g_seal_next), Some N0) ::
+                  List.map2 (fun (nd : onode) sz -> (((nd.oaddr, Some nd.oprev), Some nd.onext), Some sz)) g.g_nodes sizes)
+let addr_of (o : obs) (kt : n) : addr option =
+  match List.assoc_opt (s_of_n kt) o.addr_of_ktok with Some a -> Some (n a) | None -> None
+let ( >>= ) o f = match o with Some x -> f x | None -> None
+
 (* oracle candidates: (tombstones left by this operation's erasures, insertion reused a tombstone) *)
 let cands = List.concat_map (fun t -> [ (t, false); (t, true) ]) [0; 1; 2; 3; 4; 5; 6; 7; 8; 9; 10; 11; 12; 13; 14; 15; 16]
 
@@ -205,6 +234,7 @@ let () =
   let e = ref N0 and vsz = ref N0 in
   let slots : obs option array = Array.make 8 None in
   let peaks : int array = Array.make 8 0 in
+  let tainted : bool array = Array.make 8 false in     (* an injected panic happened in this cache: recorded sizes may lag behind values *)
   let reqs : Z.t array = Array.make 8 Z.zero in
   let cfg_cap : Z.t ref = ref Z.zero in
   let pending : (int * string list * string) option ref = ref None in
@@ -243,7 +273,7 @@ let () =
         let okc = (o.st.ents = []) && (Z.equal (z_of_n o.st.cur) Z.zero) in
         tally "new" okc;
         ignore mx;
-        peaks.(slot) <- 0; reqs.(slot) <- !cfg_cap;
+        peaks.(slot) <- 0; reqs.(slot) <- !cfg_cap; tainted.(slot) <- false;
         slots.(slot) <- Some o
       | None ->
       match !pending with
@@ -252,19 +282,34 @@ let () =
         pending := None;
         incr step; incr total_steps;
         let post = parse_obs !e line in
+        (* `@panic=<kind>:<nth>`: the nth callback of that kind made by this operation was made to panic *)
+        let (rest, inject) = (match List.rev rest with
+            | last :: before when String.length last > 7 && String.sub last 0 7 = "@panic=" ->
+              (match split ':' (String.sub last 7 (String.length last - 7)) with
+               | [k; nth] -> (List.rev before, Some (k, int_of_string nth))
+               | _ -> (List.rev before, None))
+            | _ -> (rest, None)) in
         let opname = List.hd rest in
         bump ophist opname;
         let failed : string list ref = ref [] in
         let chk name ok = tally name ok; if not ok then failed := name :: !failed in
         let detail = Buffer.create 256 in
-        let pre_ok (o : obs) = c01_mon !e o.st && c02_mon !e o.st && c04_nodup_mon o.st &&
+        let acc_ok (c : cache) = Z.equal (z_of_n c.cur) (List.fold_left (fun a (en : entry) -> Z.add a (z_of_n en.es)) Z.zero c.ents)
+                                 && Z.leq (z_of_n c.cur) (z_of_n c.maxs) in
+        let pre_ok (o : obs) = acc_ok o.st && (tainted.(slot) || (c01_mon !e o.st && c02_mon !e o.st)) && c04_nodup_mon o.st &&
                                (match o.graph with Some g -> ri_check g | None -> true) in
         (match slots.(slot) with
          | None -> ()
          | Some pre when not (pre_ok pre) ->
            (* the state before this step already violates the invariants (an earlier step was reported for it):
               the theorems say nothing about such states, so the step is not judged *)
-           bump dist "steps_skipped_broken_pre_state"
+           bump dist "steps_skipped_broken_pre_state";
+           (* keep the history variables of the growth bound up to date all the same *)
+           peaks.(slot) <- max peaks.(slot) (max (List.length pre.st.ents) (List.length post.st.ents));
+           (match rest, post.res with
+            | ["reserve"; k], "unit" | ["try_reserve"; k; _], "res_ok" ->
+              reqs.(slot) <- Z.max reqs.(slot) (Z.add (Z.of_int (List.length pre.st.ents)) (Z.of_string k))
+            | _ -> ())
          | Some pre ->
            (* distinctness / non-triviality of the case *)
            let keyd = opline ^ "#" ^ pre.raw_ents ^ "#" ^ s_of_n pre.st.maxs in
@@ -291,6 +336,56 @@ let () =
                        if Hashtbl.mem dropped_ever s || Hashtbl.mem returned_ever s then dd := false;
                        Hashtbl.replace dropped_ever s ()) post.dropped;
            chk "drop_once" !dd;
+           (match inject with
+            | Some (kname, nth) ->
+              (* ---- an injected panic: compare with the model's panic points (C16) ---- *)
+              tainted.(slot) <- true;
+              bump dist ("panic:" ^ opname ^ ":" ^ kname);
+              let st_eq (a : cache) (b : cache) = noes_string a = noes_string b && sizes_string a = sizes_string b
+                                                   && Z.equal (z_of_n a.cur) (z_of_n b.cur) && Z.equal (z_of_n a.maxs) (z_of_n b.maxs) in
+              let want_kind = (match kname, opname with
+                  | "hash", _ -> KHash | "eq", _ -> KEq | "size", _ -> KSize | "clone", _ -> KClone
+                  | "closure", "retain" -> KPred | _ -> KClosure) in
+              let pts_for oc = (match xop with
+                  | Plain (p, _, _) -> panic_points !e pre.st p oc
+                  | XClone _ -> clone_pts pre.st
+                  | _ -> []) in
+              let matches oc =
+                let pts = List.filter (fun (pp : ppoint) -> pp.pk = want_kind) (pts_for oc) in
+                if want_kind = KEq then List.find_opt (fun (pp : ppoint) -> st_eq pp.pst post.st) pts
+                else (match List.nth_opt pts nth with Some pp when st_eq pp.pst post.st -> Some pp | _ -> None) in
+              let ocs = List.concat_map (fun (t, ru) -> [ { o_tomb = n_of_int t; o_reuse = ru; o_alloc = true } ]) cands in
+              let found = List.find_map matches ocs in
+              chk "panic_state" (found <> None && post.res = "panic");
+              (match found with
+               | Some pp ->
+                 (* what unwinding drops must have been dropped; nothing dropped is still held *)
+                 chk "panic_drops" (List.for_all (fun t -> List.exists (fun d -> Z.equal (z_of_n d) (z_of_n t)) post.dropped) pp.pdrop)
+               | None ->
+                 let pts = pts_for { o_tomb = N0; o_reuse = false; o_alloc = true } in
+                 Buffer.add_string detail (Printf.sprintf "  model: %d panic points for this operation; those of kind %s:\n" (List.length pts) kname);
+                 List.iteri (fun i (pp : ppoint) -> if pp.pk = want_kind && i < 40 then
+                                Buffer.add_string detail (Printf.sprintf "    #%d %s|%s|%s\n" i (ents_string pp.pst) (s_of_n pp.pst.cur) (s_of_n pp.pst.maxs))) pts);
+              (* the property's own statement, on the implementation *)
+              (match post.graph with Some g -> chk "panic_ri" (ri_check g) | None -> ());
+              chk "panic_acc" (Z.equal (z_of_n post.st.cur) (List.fold_left (fun a (en : entry) -> Z.add a (z_of_n en.es)) Z.zero post.st.ents));
+              chk "panic_nodup" (c04_nodup_mon post.st);
+              if kname = "closure" then begin
+                chk "panic_bound" (Z.leq (z_of_n post.st.cur) (z_of_n post.st.maxs));
+                (* no entry lost other than those the predicate already rejected (mutate: none at all) *)
+                let kept = List.map (fun (en : entry) -> s_of_n en.ek.ktok) post.st.ents in
+                let lost = List.filter (fun (en : entry) -> not (List.mem (s_of_n en.ek.ktok) kept)) pre.st.ents in
+                let allowed (en : entry) = (match xop with Plain (Retain f, _, _) -> not (f en.ek en.ev) | _ -> false) in
+                chk "panic_lost" (List.for_all allowed lost)
+              end;
+              let optoks = (match xop with Plain (p, _, _) -> op_toks p | _ -> []) in
+              let before = all_toks pre.st.ents @ optoks and after = all_toks post.st.ents @ post.dropped in
+              let zs l = List.sort Z.compare (List.map z_of_n l) in
+              let rec sub a b = (match a, b with [], _ -> true | _, [] -> false
+                                 | x :: a', y :: b' -> if Z.equal x y then sub a' b' else if Z.gt x y then sub a b' else false) in
+              let rec nodup = function x :: (y :: _ as r) -> not (Z.equal x y) && nodup r | _ -> true in
+              chk "panic_ledger" (nodup (zs after) && sub (zs after) (zs before))
+            | None ->
            (match xop with
             | Plain (p, kind, dbg) ->
               let run (t, ru) al = stepA !e !vsz variant pre.st p { o_tomb = n_of_int t; o_reuse = ru; o_alloc = al } in
@@ -327,6 +422,54 @@ let () =
                  chk "hashes_le" (Z.leq (z_of_n post.hashes) (z_of_n evs.e_hashes));
                  tally "hashes_eq" (Z.equal (z_of_n post.hashes) (z_of_n evs.e_hashes));
                  chk "visits" (visits_string evs.e_visits = post.visits);
+                 (* B-level simulation of the same step on the pointer graph *)
+                 (match gstate_of pre with
+                  | None -> ()
+                  | Some g0 ->
+                    let addr_e (en : entry) = addr_of pre en.ek.ktok in
+                    let find_q q = List.find_opt (fun (en : entry) -> Z.equal (z_of_n en.ek.kid) (z_of_n q)) pre.st.ents in
+                    let rm_list g (l : entry list) = List.fold_left (fun g en -> g >>= fun g -> addr_e en >>= fun a -> b_remove g a) (Some g) l in
+                    let survivors_moved g =
+                      (* every surviving entry moves to the address observed afterwards, in the old table's iteration order *)
+                      let pairs = List.filter_map (fun (kt, a) -> match List.assoc_opt kt post.addr_of_ktok with
+                          | Some a' when a' <> a -> Some (n a, n a') | _ -> None) pre.addr_of_ktok in
+                      b_moves g pairs in
+                    let rebuilt_obs = List.exists (fun (kt, a) -> match List.assoc_opt kt post.addr_of_ktok with Some a' -> a' <> a | None -> false) pre.addr_of_ktok in
+                    let expected : gstate option = (match p, o with
+                        | (Get q | GetEntry q | Touch q), _ -> (match find_q q with Some en -> addr_e en >>= b_touch g0 | None -> Some g0)
+                        | GetLru, _ -> (match pre.st.ents with en :: _ -> addr_e en >>= b_touch g0 | [] -> Some g0)
+                        | (Remove q | RemoveEntry q), _ -> (match find_q q with Some en -> addr_e en >>= b_remove g0 | None -> Some g0)
+                        | RemoveLru, _ -> (match pre.st.ents with en :: _ -> addr_e en >>= b_remove g0 | [] -> Some g0)
+                        | RemoveMru, _ -> (match List.rev pre.st.ents with en :: _ -> addr_e en >>= b_remove g0 | [] -> Some g0)
+                        | Insert (k, _), OInsOk _ ->
+                          let g1 = (match find_q k.kid with Some en -> addr_e en >>= b_remove g0 | None -> Some g0) in
+                          let g2 = g1 >>= fun g -> rm_list g evs.e_evicted in
+                          let g3 = if rebuilt_obs then g2 >>= survivors_moved else g2 in
+                          (match List.rev s'.ents with
+                           | (ne : entry) :: _ -> g3 >>= fun g -> addr_of post k.ktok >>= fun a -> b_insert_new g a ne.es dummy_pay
+                           | [] -> None)
+                        | TryInsert (k, _), OTryOk ->
+                          let g3 = if rebuilt_obs then survivors_moved g0 else Some g0 in
+                          (match List.rev s'.ents with
+                           | (ne : entry) :: _ -> g3 >>= fun g -> addr_of post k.ktok >>= fun a -> b_insert_new g a ne.es dummy_pay
+                           | [] -> None)
+                        | Mutate (q, _, _), OMutTooLarge _ -> (match find_q q with Some en -> addr_e en >>= b_remove g0 | None -> Some g0)
+                        | Mutate (q, _, _), OMutOk ->
+                          (match find_q q, List.rev s'.ents with
+                           | Some en, (ne : entry) :: _ ->
+                             addr_e en >>= fun a -> b_touch g0 a >>= fun g -> rm_list g evs.e_evicted >>= fun g -> b_set_size g a ne.es
+                           | _ -> None)
+                        | SetMaxSize _, _ -> rm_list g0 evs.e_evicted
+                        | Retain f, _ -> rm_list g0 (List.filter (fun (en : entry) -> not (f en.ek en.ev)) pre.st.ents)
+                        | (Clear | DrainOp _), _ -> b_reset g0
+                        | (Reserve _ | TryReserve _ | ShrinkTo _ | ShrinkToFit), _ -> if rebuilt_obs then survivors_moved g0 else Some g0
+                        | _, _ -> Some g0) in
+                    (match expected with
+                     | None -> chk "bsim" false; Buffer.add_string detail "  layer B: the pointer-level operation FAULTS on the observed graph (access to a freed / unallocated node)\n"
+                     | Some g' ->
+                       let want = links_string (b_links g') and got = observed_links post in
+                       chk "bsim" (want = got);
+                       if want <> got then Buffer.add_string detail (Printf.sprintf "  layer B links (addr:prev:next:size, seal first, MRU first):\n    expected %s\n    observed %s\n" want got)));
                  (match p with
                   | Mutate _ -> let cl = (try List.assoc "cl" post.calls with Not_found -> "?") in
                     chk "closure_calls" (cl = (if o = OMutNone then "0" else "1"))
@@ -345,8 +488,7 @@ let () =
               let may_rebuild = (match p with Reserve _ | TryReserve _ | ShrinkTo _ | ShrinkToFit | Insert _ | TryInsert _ -> true | _ -> false) in
               chk "addr_stable" (not moved || (may_rebuild && not stayed));
               (* monitors on the implementation's observations *)
-              chk "mon_c01" (c01_mon !e post.st);
-              chk "mon_c02" (c02_mon !e post.st);
+              if not tainted.(slot) then begin chk "mon_c01" (c01_mon !e post.st); chk "mon_c02" (c02_mon !e post.st) end;
               chk "mon_c04" (c04_nodup_mon post.st);
               (match parse_out post.res with
                | Some o -> chk "mon_c06" (c06_mon pre.st p o post.dropped post.st);
@@ -388,6 +530,18 @@ let () =
                  chk "clone_fresh" (not (List.exists (fun t -> List.exists (fun u -> Z.equal (z_of_n t) (z_of_n u)) src_t) cl_t));
                  chk "mon_c01" (c01_mon !e post.st); chk "mon_c02" (c02_mon !e post.st); chk "mon_c04" (c04_nodup_mon post.st);
                  (match post.graph with Some g -> chk "mon_c07" (ri_check g) | None -> ());
+                 (* B level: the clone is built by inserting the copies at the head, LRU first, into a fresh seal cycle *)
+                 (match post.graph with
+                  | Some pg ->
+                    let sealn = { nprev = pg.g_seal; nnext = pg.g_seal; nsize = N0; npay = PSeal } in
+                    let g0 = { gh = (fun a -> if a = pg.g_seal then Some sealn else None); gseal = pg.g_seal; glist = [] } in
+                    let built = List.fold_left (fun g (en : entry) -> g >>= fun g -> addr_of post en.ek.ktok >>= fun a -> b_insert_new g a en.es dummy_pay) (Some g0) s'.ents in
+                    (match built with
+                     | None -> chk "bsim" false
+                     | Some g' -> let want = links_string (b_links g') and got = observed_links post in
+                       chk "bsim" (want = got);
+                       if want <> got then Buffer.add_string detail (Printf.sprintf "  layer B links of the clone:\n    expected %s\n    observed %s\n" want got))
+                  | None -> ());
                  if !failed <> [] then
                    Buffer.add_string detail (Printf.sprintf "  model: clone|%s|%s|%s\n" (ents_string s') (s_of_n s'.cur) (s_of_n s'.maxs)))
             | XDrop ->
@@ -403,7 +557,7 @@ let () =
                  List.iter (function Some ((k : key), (v : val0)) ->
                      if kind <> 2 then Hashtbl.replace returned_ever (s_of_n k.ktok) ();
                      if kind <> 1 then Hashtbl.replace returned_ever (s_of_n v.vtok) () | None -> ()) l | _ -> ());
-              if !failed <> [] then Buffer.add_string detail (Printf.sprintf "  model: %s|drops=%s\n" (res_string ~kind o) (nlist_string (sorted_n evs.e_dropped))));
+              if !failed <> [] then Buffer.add_string detail (Printf.sprintf "  model: %s|drops=%s\n" (res_string ~kind o) (nlist_string (sorted_n evs.e_dropped)))));
            if !failed <> [] then begin
              incr fails;
              if !fails <= 200 then begin
@@ -414,7 +568,7 @@ let () =
            end);
         (* the observed post-state becomes the pre-state of the next operation on the observed slot *)
         (match parse_op rest with
-         | XClone dst -> slots.(dst) <- Some post
+         | XClone dst -> if inject = None then slots.(dst) <- Some post else slots.(slot) <- Some post
          | XDrop | XIntoIter _ -> slots.(slot) <- None
          | Plain _ -> slots.(slot) <- (if post.res = "panic" && false then None else Some post))
     end
